@@ -91,15 +91,23 @@ func closedErrorUniverse(ctx *Ctx, r *Result, rule string) {
 					if !has {
 						continue
 					}
-					c, isConst := x.Val.(*ssa.Const)
-					good := false
+					// the constants the stored value can be (through φ and, for a
+					// parameter of an unexported helper, through every call site)
+					vals, why := constStrings(p, x.Val, map[ssa.Value]bool{})
+					good := why == "" && len(vals) > 0
 					got := "a non-constant value"
-					if isConst && c.Value != nil {
-						got = c.Value.ExactString()
-						for _, v := range vocab {
-							if got == fmt.Sprintf("%q", v) {
-								good = true
+					if why != "" {
+						got += " (" + why + ")"
+					} else {
+						got = strings.Join(vals, " / ")
+						for _, g := range vals {
+							in := false
+							for _, v := range vocab {
+								if g == fmt.Sprintf("%q", v) {
+									in = true
+								}
 							}
+							good = good && in
 						}
 					}
 					r.check(good, rule, fmt.Sprintf("%s: %s.%s @%s", funcName(fn), n.Obj().Name(), fld, p.Pos(x.Pos())), p.Pos(x.Pos()),
@@ -186,6 +194,39 @@ func foreignError(p *Prog, v ssa.Value, seen map[ssa.Value]bool) string {
 		return viaCallers(p, x, seen, foreignError)
 	}
 	return "value of unknown origin " + v.Name()
+}
+
+// constStrings lists the constants a value can be, following φ-nodes and
+// parameters of unexported functions to all their call sites.
+func constStrings(p *Prog, v ssa.Value, seen map[ssa.Value]bool) (vals []string, why string) {
+	if seen[v] {
+		return nil, ""
+	}
+	seen[v] = true
+	switch x := v.(type) {
+	case *ssa.Const:
+		if x.Value == nil {
+			return nil, "zero value"
+		}
+		return []string{x.Value.ExactString()}, ""
+	case *ssa.Phi:
+		for _, e := range x.Edges {
+			vs, w := constStrings(p, e, seen)
+			if w != "" {
+				return nil, w
+			}
+			vals = append(vals, vs...)
+		}
+		return vals, ""
+	case *ssa.Parameter:
+		w := viaCallers(p, x, seen, func(p *Prog, a ssa.Value, seen map[ssa.Value]bool) string {
+			vs, w := constStrings(p, a, seen)
+			vals = append(vals, vs...)
+			return w
+		})
+		return vals, w
+	}
+	return nil, "value of unknown origin " + v.Name()
 }
 
 // viaCallers follows a parameter of an unexported module function to the
@@ -361,7 +402,7 @@ func monotoneFlags(ctx *Ctx, r *Result, rule string, t *ValidatorTable) {
 			}
 		}
 		for phi, v := range ip.NextV {
-			if phi == "rangeindex" {
+			if phi == t.IdxPhi {
 				continue
 			}
 			n++
@@ -389,7 +430,7 @@ func carriedReads(ctx *Ctx, r *Result, rule string, t *ValidatorTable) {
 			written[strings.TrimPrefix(f, "&")] = true
 		}
 		for phi, v := range ip.NextV {
-			if phi != "rangeindex" && v != "carried:"+phi {
+			if phi != t.IdxPhi && v != "carried:"+phi {
 				written["carried:"+phi] = true
 			}
 		}
@@ -435,7 +476,7 @@ func classifyCarried(ctx *Ctx, t *ValidatorTable, what string) (string, bool) {
 			if strings.Contains(g, "carried:") || strings.HasPrefix(g, "cfg.") && mentionsWritten(t, g) {
 				continue
 			}
-			if strings.HasPrefix(g, "bin:<(bin:+(carried:rangeindex") {
+			if t.isGuardTag(g) {
 				continue
 			}
 			if !a.Pos {
